@@ -141,13 +141,36 @@ struct Tally {
     ok_original: u64,
     failed: u64,
     wrong: Vec<Value>,
+    /// head / list answers taken from a document indistinguishable from genuine legacy metadata (see battery)
+    legacy_meta_reports: u64,
+    /// get answering with an empty body from a forged empty legacy object (compatibility mode)
+    empty_forgery: Vec<Value>,
 }
 
 /// All read paths of one instance; `list_first` runs the listing before the reads.
 async fn battery(st: &Arc<dyn ObjectStore>, w: &World, mode: &str, what: &str, list_first: bool, t: &mut Tally) {
     let keys: Vec<String> = w.versions.keys().cloned().collect();
     let matches = |key: &str, f: &dyn Fn(&Version) -> bool| w.versions[key].iter().any(|v| f(v));
+    // A document stripped of EVERY field the sealed format added (an, at, g, av) is indistinguishable from genuine
+    // pre-authentication metadata, which compatibility mode accepts by documented design (strict mode refuses it):
+    // what head / list report for it is whatever the document says.  C09 is about the BYTES a read returns - those
+    // are checked for these tampers like for any other; the reported size / token are only counted.
+    let unauth_meta = what.starts_with("downgrade") && what.contains("\"av\"") && !mode.contains("strict");
     let mut wrong = |t: &mut Tally, key: &str, path: &str, detail: String| {
+        if unauth_meta && (path == "head" || path == "list") {
+            t.legacy_meta_reports += 1;
+            return;
+        }
+        // ... and an EMPTY object forged that way (size 0, no tags, empty data/<key>) has no chunk whose tag could
+        // fail: get answers with 0 bytes for a key whose commits are not empty.  Classified separately (known finding).
+        if unauth_meta && path == "get" && detail.starts_with("0 bytes") {
+            if t.empty_forgery.len() < 4 {
+                t.empty_forgery.push(json!({"tamper": what, "instance": mode, "key": key, "read": path, "detail": detail}));
+            } else {
+                t.empty_forgery.push(Value::Null);
+            }
+            return;
+        }
         if t.wrong.len() < 50 {
             t.wrong.push(json!({"tamper": what, "instance": mode, "key": key, "read": path, "detail": detail}));
         } else {
@@ -276,6 +299,28 @@ fn cbor_strip(doc: &[u8], remove: &[&str]) -> Option<Vec<u8>> {
     }
 }
 
+/// An (unauthenticated) document with its size set to `size` and its tag list cut to `ntags` entries.
+fn cbor_edit(doc: &[u8], size: u64, ntags: usize) -> Option<Vec<u8>> {
+    let v: cbor2::Value = cbor2::from_slice(doc).ok()?;
+    if let cbor2::Value::Map(m) = v {
+        let edited: Vec<(cbor2::Value, cbor2::Value)> = m
+            .into_iter()
+            .map(|(k, val)| match (&k, val) {
+                (cbor2::Value::Text(t), _) if t == "s" => (k, cbor2::Value::from(size)),
+                (cbor2::Value::Text(t), cbor2::Value::Array(a)) if t == "t" => {
+                    (k.clone(), cbor2::Value::Array(a.into_iter().take(ntags).collect()))
+                }
+                (_, val) => (k, val),
+            })
+            .collect();
+        let mut out = Vec::new();
+        cbor2::to_writer(&cbor2::Value::Map(edited.into_iter().collect()), &mut out).ok()?;
+        Some(out)
+    } else {
+        None
+    }
+}
+
 fn tampers(w: &World) -> Vec<(String, Snapshot)> {
     let mut out: Vec<(String, Snapshot)> = Vec::new();
     let base = &w.base;
@@ -373,6 +418,48 @@ fn tampers(w: &World) -> Vec<(String, Snapshot)> {
                 let mut s = base.clone();
                 s.insert(p.clone(), doc);
                 out.push((format!("strip {rm:?} from {p}"), s));
+            }
+        }
+    }
+    // (5b) DOWNGRADE to the legacy layout: the authentication fields and the generation pointer stripped
+    // (with and without the other fields that betray it), the ciphertext relocated to data/<key> where a
+    // generation-less document points - and then, since nothing authenticates such a document any more,
+    // edited: size and tag list cut to the first chunk(s), or the whole pair served under another key
+    let meta_keys: Vec<String> = paths.iter().filter_map(|p| p.strip_prefix("meta/").map(|k| k.to_string())).collect();
+    for k in &meta_keys {
+        let Some(gp) = base.keys().find(|p| p.starts_with(&format!("gen/{k}/"))).cloned() else { continue };
+        for rm in [vec!["an", "at", "g"], vec!["an", "at", "g", "m"], vec!["an", "at", "g", "av"], vec!["an", "at", "g", "av", "m"]] {
+            let Some(doc) = cbor_strip(&base[&format!("meta/{k}")], &rm) else { continue };
+            // as it is
+            let mut s = base.clone();
+            s.insert(format!("meta/{k}"), doc.clone());
+            s.insert(format!("data/{k}"), base[&gp].clone());
+            out.push((format!("downgrade {k}: strip {rm:?}, ciphertext at data/{k}"), s.clone()));
+            s.remove(&gp);
+            out.push((format!("downgrade {k}: strip {rm:?}, ciphertext MOVED to data/{k}"), s));
+            // cut to the first n chunks
+            let total = base[&gp].len();
+            for n in 0..=(total / CHUNK as usize) {
+                let cut = n * CHUNK as usize;
+                if cut >= total {
+                    continue;
+                }
+                if let Some(doc2) = cbor_edit(&doc, cut as u64, n) {
+                    let mut s = base.clone();
+                    s.insert(format!("meta/{k}"), doc2);
+                    s.insert(format!("data/{k}"), base[&gp][..cut].to_vec());
+                    out.push((format!("downgrade {k}: strip {rm:?}, cut to {n} chunks"), s));
+                }
+            }
+            // served under another key
+            for other in &meta_keys {
+                if other == k {
+                    continue;
+                }
+                let mut s = base.clone();
+                s.insert(format!("meta/{other}"), doc.clone());
+                s.insert(format!("data/{other}"), base[&gp].clone());
+                out.push((format!("downgrade {k}: strip {rm:?}, served under {other}"), s));
             }
         }
     }
@@ -506,6 +593,8 @@ fn main() {
         total.ok_original += t.ok_original;
         total.failed += t.failed;
         total.wrong.extend(t.wrong);
+        total.legacy_meta_reports += t.legacy_meta_reports;
+        total.empty_forgery.extend(t.empty_forgery);
     }
     let backend_problems = checks_on_backend(&w);
     let n_wrong = total.wrong.len();
@@ -514,6 +603,9 @@ fn main() {
         "failed": total.failed, "n_wrong": n_wrong,
         "wrong": total.wrong.into_iter().filter(|x| !x.is_null()).take(60).collect::<Vec<_>>(),
         "backend_problems": backend_problems,
+        "legacy_meta_reports": total.legacy_meta_reports,
+        "n_empty_forgery": total.empty_forgery.len(),
+        "empty_forgery": total.empty_forgery.iter().filter(|x| !x.is_null()).take(6).collect::<Vec<_>>(),
         "backend_objects": w.base.keys().collect::<Vec<_>>(),
     });
     println!("drive_encrypted: tampers={n_tampers} reads={} original={} failed={} wrong={n_wrong} backend_problems={}",
